@@ -14,7 +14,7 @@ from .checklib import Check
 
 
 PARTS = {
-    "C03": ("reqwire", "pool"),
+    "C03": ("reqwire", "pool", "h2"),
     "C01": ("pool", "h2"),
     "C10": ("establish", "pool"),
     "C14": ("pool", "h2"),
